@@ -42,6 +42,8 @@ def run(prop: str, tier: str, seed: int) -> int:
         rc = tlc.run_tlc("MC_Core", workdir=wd, workers=16, timeout=3000,
                          cfg_text=core.cfg_text("MC_Core.cfg", Depth=1, Emit=True, Foreign=True), env={"CTOR_FILE": ctor_path})
         rep.add_tlc(rc, "MC_Core depth 1 with foreign inputs (holder dataclasses of every type)")
+        if rc.violated:
+            raise tlc.MachineryError(f"model theorem violated on the reference spec: {rc.violated}")
         runs.append([p for p in rc.printed if p[0] == "inp" and p[1][0] == "dc"])
     exhaustive = True
     for printed in runs:
